@@ -150,7 +150,9 @@ func (v *View) checkC09(res *Result) {
 				res.Obs["c09.inflight."+c.Op+"."+ph]++
 			}
 		}
-		dur := a.RetVT - a.CallVT
+		// (minus what the harness itself added inside the call: yields at in-library sites and
+		// calls into user code - the logger, the metrics sink - held for a stretch of virtual time)
+		dur := a.RetVT - a.CallVT - v.slack(a.CallVT, a.RetVT)
 		is := v.instSpec(a.Inst)
 		dd := time.Duration(0)
 		if is != nil {
